@@ -42,7 +42,7 @@ class Partial(Generic[C_co]):
 
     __slots__ = ("ctor", "args", "kwargs", "leaf")
 
-    def __init__(self, ctor: Type[C_co], *args, __leaf__, **kwargs):
+    def __init__(self, ctor: Type[C_co], /, *args, __leaf__, **kwargs):
         self.ctor = ctor
         self.args = args
         self.kwargs = kwargs
@@ -68,12 +68,12 @@ class Partial(Generic[C_co]):
                 "%s[%s] %s" % (self.__class__.__name__, self.ctor, message)
             ) from err
 
-    def __call__(self, *args, **kwargs) -> "Partial[C_co]":
+    def __call__(self, /, *args, **kwargs) -> "Partial[C_co]":
         return Partial(
             self.ctor, *self.args, *args, __leaf__=self.leaf, **self.kwargs, **kwargs
         )
 
-    def __construct__(self, *args, **kwargs):
+    def __construct__(self, /, *args, **kwargs):
         return self.ctor(*args, *self.args, **kwargs, **self.kwargs)
 
     @overload  # noqa: F811
